@@ -2,6 +2,7 @@ import PcfgVerif.Drive.PQ
 import PcfgVerif.Drive.Omen
 import PcfgVerif.Drive.Expand
 import PcfgVerif.Drive.Loader
+import PcfgVerif.Drive.Sampler
 /-! Line-protocol driver: one operation per input line, one canonical answer line each. -/
 
 structure DState where
@@ -9,6 +10,7 @@ structure DState where
   omen : Drive.Omen.St := {}
   exp : Drive.Expand.St := {}
   ld : Drive.Loader.St := {}
+  hw : Drive.Sampler.St := {}
 
 def dispatch (s : DState) (line : String) : DState × String :=
   let toks := (line.splitOn " ").filter (· ≠ "")
@@ -27,6 +29,9 @@ def dispatch (s : DState) (line : String) : DState × String :=
     else if cmd.startsWith "ld." || cmd.startsWith "txt." then
       let (p, out) := Drive.Loader.step s.ld toks
       ({ s with ld := p }, out)
+    else if cmd.startsWith "hw." then
+      let (p, out) := Drive.Sampler.step s.hw s.exp toks
+      ({ s with hw := p }, out)
     else (s, "bad-op")
 
 partial def loop (h : IO.FS.Stream) (out : IO.FS.Stream) (s : DState) : IO Unit := do
